@@ -85,7 +85,7 @@ func build(s *shape, kt string) *schema.Advertisement {
 	ad := &schema.Advertisement{
 		Provider:  ids.PeerT(s.Prov, kt).String(),
 		Addresses: addrs(s.Addrs),
-		ContextID: []byte("ctx-" + s.Ctx),
+		ContextID: ctxBytes(s.Ctx),
 		Metadata:  []byte("md-" + s.MD),
 		IsRm:      s.Rm,
 	}
@@ -105,6 +105,13 @@ func build(s *shape, kt string) *schema.Advertisement {
 		ad.ExtendedProvider = ep
 	}
 	return ad
+}
+
+func ctxBytes(c string) []byte {
+	if c == "c0" {
+		return nil // empty context ID
+	}
+	return []byte("ctx-" + c)
 }
 
 func cloneAd(ad *schema.Advertisement) *schema.Advertisement {
